@@ -786,11 +786,11 @@ func (se *SpecEnv) ghostGet2(g *GhostVar, k1, k2 string) Value {
 	inner.pkg = g.Pkg
 	t := inner.resolveType(g.T)
 	srt := se.e.sr.sortOf(t)
-	if g.Name != "bufdata" {
+	if !streamGhost(g.Name) {
 		se.e.noteMapType("G!"+g.Name, t, "elem")
 	}
 	m := se.e.heapGet(se.s, "G!"+g.Name, arr("Int", arr("Int", srt)))
-	if strings.HasPrefix(g.Name, "buf") {
+	if streamGhost(g.Name) {
 		return Value{T: sel2(se.e.ctx.resolveSel(m, k1), k2), Sort: srt, GoT: t}
 	}
 	return Value{T: sel2(sel2(m, k1), k2), Sort: srt, GoT: t}
@@ -808,8 +808,17 @@ func (se *SpecEnv) ghostGet(g *GhostVar, obj string) Value {
 	}
 	se.e.noteMapType("G!"+g.Name, t, "field")
 	m := se.e.heapGet(se.s, "G!"+g.Name, arr("Int", srt))
-	if strings.HasPrefix(g.Name, "buf") {
+	if streamGhost(g.Name) {
 		return Value{T: se.e.ctx.resolveSel(m, obj), Sort: srt, GoT: t}
 	}
 	return Value{T: sel2(m, obj), Sort: srt, GoT: t}
+}
+
+// streamGhost: ghost variables of the byte-stream / file model (read through the recorded store chain).
+func streamGhost(name string) bool {
+	switch name {
+	case "bufr", "bufw", "bufdata", "fdata", "fsize", "fpos":
+		return true
+	}
+	return false
 }
